@@ -69,7 +69,7 @@ ASSUMPTIONS = [
 
 D0 = datetime.datetime(2023, 5, 1, 12, 0, 0)
 DTYPES = ["uint8", "uint16", "float32", "float64"]
-K2D = ["array", "array-rgb", "scalar", "image", "optical", "scalar-series", "optical-series", "scalar-series1", "optical-series1", "scalar-series-appended"]
+K2D = ["array", "array-rgb", "scalar", "image", "optical", "scalar-series", "optical-series", "scalar-series1", "optical-series1", "scalar-series-appended", "scalar-series-readonly"]
 KRGB = ["array-rgb", "image", "optical", "optical-series", "optical-series1"]
 K3D = ["array3d", "scalar3d", "scalar3d-series"]
 KCLASS = {
@@ -88,6 +88,8 @@ KCLASS = {
     "optical-series1": "vector-series",
     # a series assembled with the public append(): one slice + an appended two-slice series
     "scalar-series-appended": "scalar-series",
+    # a series around pixel data that cannot be written to (memory-mapped / frombuffer arrays)
+    "scalar-series-readonly": "scalar-series",
 }
 SHAPES = {
     "quick": {"2d": [(5, 5), (6, 8)], "wide": [(5, 5), (6, 8)], "3d": [(3, 4, 5)], "checker": [(40, 60)], "drift": [(160, 200)]},
@@ -142,6 +144,9 @@ CONFIGS["affine/2d-identity-set"] = _cfg("affine/2d-identity-set", "affine/2d", 
 CONFIGS["affine/2d-shift-set"] = _cfg("affine/2d-shift-set", "affine/2d", K2D)
 CONFIGS["affine/2d-identity-fit"] = _cfg("affine/2d-identity-fit", "affine/2d", K2D, neutral="values", proto=True)
 CONFIGS["affine/2d-shift-fit"] = _cfg("affine/2d-shift-fit", "affine/2d", K2D, proto=True)
+# fitted from physical points (Coordinates) on coordinate systems whose voxel size is not a power of two (0.1)
+CONFIGS["affine/2d-identity-fit-coord"] = _cfg("affine/2d-identity-fit-coord", "affine/2d", K2D, neutral="values", proto=True)
+CONFIGS["gp/identity-fit-coord"] = _cfg("gp/identity-fit-coord", "gp", K2D, neutral="values", proto=True)
 CONFIGS["affine/2d-quarter-set"] = _cfg("affine/2d-quarter-set", "affine/2d", K2D)
 CONFIGS["affine/2d-resample"] = _cfg("affine/2d-resample", "affine/2d-resample", K2D)
 CONFIGS["affine/3d-identity-set"] = _cfg("affine/3d-identity-set", "affine/3d", K3D, "3d", neutral="values")
@@ -184,7 +189,7 @@ def cases(tier):
                 for dt in cfg["dtypes"] or DTYPES:
                     if tier == "quick" and cfg["weight"] == "heavy" and cfg["dtypes"] is None and dt in ("uint16", "float32"):
                         continue
-                    if (kind.endswith("series1") or kind.endswith("appended")) and (dt in ("uint16", "float32") or shape != SHAPES[tier][cfg["shapes"]][0]):
+                    if (kind.endswith("series1") or kind.endswith("appended") or kind.endswith("readonly")) and (dt in ("uint16", "float32") or shape != SHAPES[tier][cfg["shapes"]][0]):
                         continue
                     out.append({"kind": "bfs", "config": name, "input": kind, "dtype": dt, "shape": list(shape), "depth": DEPTH[tier][cfg["weight"]]})
     for c1, c2, kinds in PAIRS:
@@ -328,6 +333,11 @@ def _make_input(kind, shape, dtype, special="2d"):
         return darsia.Image(rgb(), space_dim=2, scalar=False, dimensions=dims, origin=[1.0, 4.0], time=1.5, name="general")
     if kind == "optical":
         return darsia.OpticalImage(rgb(), dimensions=dims, color_space="RGB", name="optical")
+    if kind == "scalar-series-readonly":
+        data = payload(shape + (NT,), dtype)
+        img_ro = darsia.ScalarImage(data, dimensions=dims, series=True, time=[0.0, 2.5], name="scalar-series-readonly")
+        img_ro.img.setflags(write=False)
+        return img_ro
     if kind == "scalar-series-appended":
         data = payload(shape + (3,), dtype)
         first = darsia.ScalarImage(data[..., :1].copy(), dimensions=dims, series=True, time=[0.0], name="scalar-series-appended")
@@ -500,10 +510,20 @@ def _build(name, shape):
             pts = darsia.make_coordinate([[0.0, 0.0], [1.0, 1.0]])
             T.set_dtype(pts, pts)
             return darsia.TransformationCorrection(_cs(shape), _cs(_resample_shape(shape), dims_of(shape)), T)
+        if sub == "2d-identity-fit-coord":
+            cs01 = _cs(shape, [0.1 * shape[0], 0.1 * shape[1]])
+            P = cs01.coordinate(np.array(_corner_voxels(shape)) + 0.5)
+            with env.quiet():
+                return darsia.AffineCorrection(cs01, _cs(shape, [0.1 * shape[0], 0.1 * shape[1]]), darsia.make_coordinate(np.asarray(P)), darsia.make_coordinate(np.asarray(P).copy()), {"tol": 1e-10, "maxiter": 10000})
         src = np.array(_corner_voxels(shape))
         dst = src if sub == "2d-identity-fit" else src + np.array([1, 2])
         with env.quiet():
             return darsia.AffineCorrection(_cs(shape), _cs(shape), darsia.make_voxel(src), darsia.make_voxel(dst), {"tol": 1e-8, "maxiter": 10000})
+    if fam == "gp" and sub == "identity-fit-coord":
+        cs01 = _cs(shape, [0.1 * shape[0], 0.1 * shape[1]])
+        P = np.asarray(cs01.coordinate(np.array(_corner_voxels(shape)) + 0.5))
+        with env.quiet():
+            return darsia.GeneralizedPerspectiveCorrection(cs01, _cs(shape, [0.1 * shape[0], 0.1 * shape[1]]), darsia.make_coordinate(P), darsia.make_coordinate(P.copy()), {})
     if fam == "gp":
         pts = darsia.make_voxel(_corner_voxels(shape))
         cs_dst = _cs(_resample_shape(shape), [2.0, 3.0]) if sub == "resample" else _cs(shape)
